@@ -3,71 +3,77 @@ from fractions import Fraction as F
 import z3
 from vlib import oracles as O, rcore, rfam
 from vlib.mirsym import Executor, Unsupported, PathDead, R
-from vlib.rfam import Scenario, ob_eq, ob_pred, discharge
+from vlib.rfam import ob_eq, ob_pred, discharge
 from vlib.framework import fam_result
 
 NAMES = ['SMA', 'WMA', 'SD', 'MAD', 'MIN', 'MAX', 'BB']
 
 
-def obligations(name, n):
-    def f(stream, outs, mult):
-        obs = []
-        for i, o in enumerate(outs):
-            t = i + 1
-            w = O.window(stream, i, n); hist = stream[:i + 1]; tol = O.tau(t)
-            lab = '%s(%d) step %d' % (name, n, t)
-            if name == 'SMA': obs.append(ob_eq(lab, o[0], O.mean(w), hist, tol, step=i))
-            elif name == 'WMA': obs.append(ob_eq(lab, o[0], O.wma(w), hist, tol, step=i))
-            elif name == 'MAD': obs.append(ob_eq(lab, o[0], O.mad(w), hist, tol, step=i))
-            elif name == 'MIN': obs.append(ob_pred(lab + ' exact', O.not_(O.eq(o[0], O.wmin(w))), step=i))
-            elif name == 'MAX': obs.append(ob_pred(lab + ' exact', O.not_(O.eq(o[0], O.wmax(w))), step=i))
-            elif name == 'SD':
-                obs.append(ob_eq(lab + ' variance', o[0] * o[0], O.pvar(w), hist, tol, square=True, step=i))
-                obs.append(ob_pred(lab + ' >= 0', o[0] < 0, step=i))
-            elif name == 'BB':
-                avg, up, lo = o
-                obs.append(ob_eq(lab + ' average', avg, O.mean(w), hist, tol, step=i))
-                hw = up - avg
-                m2 = mult * mult
-                sc2 = O.maxv(F(1), m2)
-                d = hw * hw - m2 * O.pvar(w)
-                ad = O.absv(d)
-                obs.append(ob_pred(lab + ' half-width^2 == mult^2 * var', O.not_(O.eq(hw * hw, m2 * O.pvar(w))),
-                                   O.and_(*[ad > tol * sc2 * (x * x) for x in hist]), step=i))
-                sc1 = O.maxv(F(1), O.absv(mult))
-                d2 = (avg - lo) - hw
-                obs.append(ob_pred(lab + ' symmetric', O.not_(O.eq(avg - lo, hw)),
-                                   O.and_(*[O.absv(d2) > tol * sc1 * O.absv(x) for x in hist]), step=i))
-                obs.append(ob_pred(lab + ' upper side has the sign of mult', hw * mult < 0,
-                                   O.and_(*[hw * mult < -(tol * sc2 * (x * x)) for x in hist]), step=i))
-        return obs
-    return f
+def obligations(ops, outs):
+    """generic over numbers: ops = [('new',..), ('feed',..)..]"""
+    _, _, name, (n,), mult = ops[0]
+    fo = rfam.feeds(ops, outs)
+    stream = [v for v, _ in fo]
+    obs = []
+    for i, (_, o) in enumerate(fo):
+        t = i + 1
+        w = O.window(stream, i, n); hist = stream[:i + 1]; tol = O.tau(t)
+        lab = '%s(%d) step %d' % (name, n, t)
+        if name == 'SMA': obs.append(ob_eq(lab, o[0], O.mean(w), hist, tol, step=i))
+        elif name == 'WMA': obs.append(ob_eq(lab, o[0], O.wma(w), hist, tol, step=i))
+        elif name == 'MAD': obs.append(ob_eq(lab, o[0], O.mad(w), hist, tol, step=i))
+        elif name == 'MIN': obs.append(ob_pred(lab + ' exact', O.not_(O.eq(o[0], O.wmin(w))), step=i))
+        elif name == 'MAX': obs.append(ob_pred(lab + ' exact', O.not_(O.eq(o[0], O.wmax(w))), step=i))
+        elif name == 'SD':
+            obs.append(ob_eq(lab + ' variance', o[0] * o[0], O.pvar(w), hist, tol, square=True, step=i))
+            obs.append(ob_pred(lab + ' >= 0', o[0] < 0, step=i))
+        elif name == 'BB':
+            obs += bb_obligations(lab, o, w, hist, mult, tol, i)
+    return obs
+
+
+def bb_obligations(lab, o, w, hist, mult, tol, i):
+    avg, up, lo = o
+    obs = [ob_eq(lab + ' average', avg, O.mean(w), hist, tol, step=i)]
+    hw = up - avg
+    m2 = mult * mult
+    sc2 = O.maxv(F(1), m2)
+    ad = O.absv(hw * hw - m2 * O.pvar(w))
+    obs.append(ob_pred(lab + ' half-width^2 == mult^2 * var', O.not_(O.eq(hw * hw, m2 * O.pvar(w))),
+                       O.and_(*[ad > tol * sc2 * (x * x) for x in hist]), step=i))
+    sc1 = O.maxv(F(1), O.absv(mult))
+    d2 = (avg - lo) - hw
+    obs.append(ob_pred(lab + ' symmetric', O.not_(O.eq(avg - lo, hw)),
+                       O.and_(*[O.absv(d2) > tol * sc1 * O.absv(x) for x in hist]), step=i))
+    obs.append(ob_pred(lab + ' upper side has the sign of mult', hw * mult < 0,
+                       O.and_(*[hw * mult < -(tol * sc2 * (x * x)) for x in hist]), step=i))
+    return obs
 
 
 def r_family(mir, name, n, t, seed, timeout_s):
+    fam = 'R:C01 %s n=%d t=%d' % (name, n, t)
     ex = Executor(mir)
     xs = rcore.reals('x', t)
     mult = z3.Real('mult') if name == 'BB' else None
-    sc = Scenario(name, [n], mult)
+    ops = rfam.ops_stream(name, [n], mult, xs)
     assume = rcore.bounds(xs) + (rcore.bounds([mult], bound=F(1000)) if mult is not None else [])
     try:
-        outs = sc.run_r(ex, xs)
+        outs, _ = rfam.run_ops_r(ex, ops)
     except (Unsupported, PathDead) as e:
-        return fam_result('R:C01 %s n=%d t=%d' % (name, n, t), 'R', 'undecided', detail='R cannot encode: %r' % (e,),
-                          bounds=dict(n=n, t=t))
-    fn = obligations(name, n)
-    obs = fn(xs, outs, mult)
+        return fam_result(fam, 'R', 'undecided', detail='R cannot encode: %r' % (e,), bounds=dict(n=n, t=t))
+    obs = obligations(ops, outs)
+    last = outs[-1]
     ref_last = {'SMA': O.mean, 'WMA': O.wma, 'MAD': O.mad, 'MIN': O.wmin, 'MAX': O.wmax}.get(name)
     w = O.window(xs, t - 1, n)
     if ref_last is not None:
-        wit = lambda: O.not_(O.eq(outs[-1][0], ref_last(w) + 1))
+        wit = lambda: O.not_(O.eq(last[0], ref_last(w) + 1))
     elif name == 'SD':
-        wit = lambda: O.not_(O.eq(outs[-1][0] * outs[-1][0], O.pvar(w) + 1))
+        wit = lambda: O.not_(O.eq(last[0] * last[0], O.pvar(w) + 1))
     else:
-        wit = lambda: O.not_(O.eq(outs[-1][0], O.mean(w) + 1))
-    return discharge(sc, ex, xs, outs, obs, assume, seed=seed, timeout_s=timeout_s, mult_var=mult, obligations_fn=fn,
-                     family='R:C01 %s n=%d t=%d' % (name, n, t), bounds=dict(engine='R', indicator=name, n=n, t=t,
-                     inputs='all reals |x|<=1e12' + (', multiplier any real |m|<=1000' if mult is not None else '')),
+        wit = lambda: O.not_(O.eq(last[0], O.mean(w) + 1))
+    return discharge(ex, ops, outs, obs, assume, obligations, seed=seed, timeout_s=timeout_s, family=fam,
+                     bounds=dict(engine='R', indicator=name, n=n, t=t,
+                                 inputs='all reals |x|<=1e12' + (', multiplier any real |m|<=1000' if mult is not None else '')),
                      witness_fn=wit)
 
 
@@ -81,7 +87,7 @@ def main(chk):
     else:
         ns, tf, to = (1, 2, 3, 4, 5, 6), (lambda n: 3 * n + 3), 600
     jobs = [(r_family, (mir, name, n, tf(n), chk.seed, to), {}) for name in NAMES for n in ns]
-    cnt, problems = rfam.validate_translator(mir, [Scenario(nm, [3], F(2) if nm == 'BB' else None) for nm in NAMES], chk.seed)
+    cnt, problems = rfam.validate_translator(mir, [(nm, [3], F(2) if nm == 'BB' else None) for nm in NAMES], chk.seed)
     chk.extra['traces_validated'] = cnt
     if problems:
         chk.add([fam_result('translator validation', 'R', 'undecided', detail='; '.join(problems[:3]))])
